@@ -15,14 +15,14 @@ from job_shop_lib.reinforcement_learning import (
 
 from .. import feasible, gen
 from .. import fingerprint as fp
-from ..lib import Driver, build_instance, ref
+from ..lib import Driver, build_instance, fork, ref
 
 ID = "C13"
 RULE = (
     "Generated: instance (all shapes incl. flexible, zero durations) x choice "
     "sequence x reset points (the same observers are used for up to three "
     "consecutive episodes, resets may happen mid-episode); MakespanReward and "
-    "IdleTimeReward subscribed from the start, and the same history through "
+    "IdleTimeReward subscribed from the start (also on a dispatcher that is deep-copied mid-episode, copy and original then finished along different histories), and the same history through "
     "SingleJobShopGraphEnv with either reward class. Oracle after every step "
     "k of the current episode: len(rewards) == k, every reward <= 0, "
     "sum(makespan rewards) == -max end (independent checker), sum(idle "
@@ -160,6 +160,49 @@ def check_case(case, ctx):
                     f"{name} attached after {k_attach} dispatches: after dispatch {kk} rewards {r.rewards}, "
                     f"expected {kk + 1 - k_attach} rewards summing to {want}",
                 )
+
+    # a dispatcher deep-copied mid-episode (a planner branching the state):
+    # the copy's own reward observers account for the copy's schedule, the
+    # original's for the original's
+    drv3 = Driver(inst, None)
+    d3 = drv3.dispatcher
+    MakespanReward(d3)
+    IdleTimeReward(d3)
+    k_fork = (2 * len(history) + n) % (n + 1)
+    for kk in range(k_fork):
+        a, b = history[kk] if kk < len(history) else (0, 0)
+        drv3.step(a, b, "ready")
+    clone, cmodel = fork(d3, drv3.model)
+    branches = [("deep copy", clone, cmodel, -1), ("original after the deep copy", d3, drv3.model, 0)]
+    for rounds in range(2):
+        for name, disp, mod, pick_ in branches:
+            while not mod.complete():
+                j, p = mod.ready()[pick_]
+                mm = inst["machines"][j][p][pick_]
+                disp.dispatch(disp.instance.jobs[j][p], mm)
+                mod.apply(j, mm)
+                if mod.count() % 2 == 0 and rounds == 0:
+                    break  # interleave the two branches
+    for name, disp, mod, _pick in branches:
+        rows3 = fp.schedule_rows(disp.schedule)
+        ctx.check(
+            sorted(r for lst in rows3 for r in lst) == sorted((j, p, s, e, mm) for (j, p, mm, s, e) in mod.order),
+            "fork-schedule",
+            f"{name} (taken after {k_fork} dispatches): schedule {rows3} differs from its own history {mod.order}",
+        )
+        for rname, cls, want in (
+            ("MakespanReward", MakespanReward, -feasible.makespan(rows3)),
+            ("IdleTimeReward", IdleTimeReward, -idle_from_rows(rows3)),
+        ):
+            mine = [o for o in disp.subscribers if type(o) is cls]
+            ctx.check(len(mine) == 1, "fork-observers", f"{name}: {len(mine)} {rname} observers subscribed")
+            r = mine[0]
+            ctx.check(
+                len(r.rewards) == n and sum(r.rewards) == want and all(x <= 0 for x in r.rewards),
+                "fork-sum:" + rname,
+                f"{name} (taken after {k_fork} of {n} dispatches): {rname} rewards {r.rewards}, expected {n} non-positive rewards summing to {want}",
+            )
+    ctx.count("forks")
 
     # the same through the environment (first complete episode's choices)
     instance = build_instance(inst)
